@@ -19,6 +19,18 @@ CHECKS = {
         note="Trusted: z3, CPython, rsx (SymStr/SymBytes incl. its 1-2 byte UTF-8 model, symre), the in-memory fscommands stub. Assumes the file is valid in its declared encoding and uses one newline convention (the property's premise). Counterexamples are replayed on un-instrumented rope with the real file system.",
         design="§5 C16",
     ),
+    "C12": dict(
+        level="other",
+        text="Solver-decided, path-exhaustive within stated bounds (serializer kernel): every data shape up to N nodes (tuple/list/dict nesting with str, int, None and tuple keys) is enumerated and every leaf is symbolic (strings of length 0-2 over digits, '$', letters and the non-ASCII digit U+00B2, unbounded ints, None), as is the format version; the real python_to_json/json_to_python run on the proxies and z3 enumerates all paths; on each, the decoded value must be type-exactly equal, the encoded value JSON-native, and the real json text round trip is executed at the witness.",
+        note="Trusted: z3, CPython, rsx. Covers the data-serializer clause of C12 (every value the serializer accepts round-trips through JSON text); the close/reopen of real pickle files is behind a C boundary (pickle) and is exercised separately, see DESIGN.md.",
+        design="§5 C12",
+    ),
+    "C06": dict(
+        level="other",
+        text="Solver-decided, path-exhaustive within stated bounds (mapping algebra kernel): definition shape and changer pipeline shape are enumerated; parameter names, call keyword names and added names are symbolic (all coincidence patterns explored by z3), positional count, keyword count and every changer argument (index, permutation, default/value presence, autodef) are solver-split integers; rope's real DefinitionInfo._read, CallInfo.read, ArgumentMapping, all five changers and to_call_info/to_string rewrite the def and call texts; at every path witness the interpreter itself binds the original and the rewritten call and each surviving parameter must receive the same value.",
+        note="Trusted: z3, CPython (as the binding oracle), rsx incl. symbolic parse. Valid-request premises are listed in the evidence. Found and fixed two genuine rope defects (see known_findings.json).",
+        design="§5 C06",
+    ),
 }
 
 NOT_YET = "check not built yet (see DESIGN.md §5 for the planned decision procedure)"
